@@ -6,6 +6,7 @@ import (
 
 	"github.com/formancehq/numscript/internal/verifmc/env"
 
+	"github.com/formancehq/numscript/internal/verifmc/gen"
 	"github.com/formancehq/numscript/internal/verifmc/mc"
 	"github.com/formancehq/numscript/internal/verifmc/ref"
 )
@@ -87,6 +88,37 @@ func runC05(w *mc.Worker) {
 	}
 	runVarSeqSpace(w, "vars-L2", 1, 2, func(c *seqCase, vars map[string]string, bal env.Bal) {
 		judgeSeqCase(w, c, vars, bal, owns, nontriv, false)
+	})
+	// two kept shares in one statement with a credited share between and after them, two senders
+	w.Stage("two-kept", "ordered {max c1 kept, max c2 to @x, max c3 kept, remaining to @y} and allotment {1/3 kept, 1/3 to @x, 1/3 kept} from {@a @b}; caps in {1,2,4}; balances {0,1,2,3,5}^2; amounts {1,3,6,9}", func() {
+		caps := []string{"1", "2", "4"}
+		w.Outer("two-kept/dst", 0, func(o *mc.Explorer) {
+			var dst gen.Dest
+			if o.Choose(2) == 0 {
+				c := func() gen.Expr { return gen.Mon("USD", caps[o.Choose(len(caps))]) }
+				dst = &gen.DstInorder{Clauses: []*gen.DstClause{{Cap: c(), To: &gen.Kept{}}, {Cap: c(), To: &gen.To{D: da("x")}}, {Cap: c(), To: &gen.Kept{}}}, Remaining: &gen.To{D: da("y")}}
+			} else {
+				dst = &gen.DstAllot{Items: []*gen.DstAllotItem{{A: gen.Port("1/3"), To: &gen.Kept{}}, {A: gen.Port("1/3"), To: &gen.To{D: da("x")}}, {A: gen.Port("1/3"), To: &gen.Kept{}}}}
+			}
+			prog := &gen.Program{Stmts: []gen.Stmt{&gen.Send{Sent: &gen.SentLit{E: gen.V("amt")}, Src: lst(sa("a"), sa("b")), Dst: dst}}}
+			declareUsed(prog)
+			text := gen.Text(prog)
+			if !w.Mine(text) {
+				return
+			}
+			w.Owned()
+			pr, ok := mustParse(w, text)
+			if !ok {
+				return
+			}
+			bals := bigs(0, 1, 2, 3, 5)
+			amts := bigs(1, 3, 6, 9)
+			w.Inner(0, func(in *mc.Explorer) {
+				bal := env.Bal{"a": {"USD": bals[in.Choose(len(bals))]}, "b": {"USD": bals[in.Choose(len(bals))]}}
+				vars := map[string]string{"amt": "USD " + amts[in.Choose(len(amts))].String()}
+				judgeOne(w, prog, text, pr, vars, bal, nil, owns, nontriv)
+			})
+		})
 	})
 	if w.Tier == "quick" {
 		stage("w3-d2", "destination trees of weight <= 3, depth <= 2; amounts {0,1,2,3,5,8}", 3, 2, amtQ)
